@@ -497,11 +497,12 @@ pub fn many_small_records(rng: &Rng, fmt: Fmt, target_len: usize) -> Vec<u8> {
 }
 
 /// One record (or defective record-like group) that is larger than a size at which code tends to
-/// change its behaviour: the default capacity (64 KiB), 1 MiB, and the 8 MiB growth step of the
-/// standard policy. A few small valid records in front and (if the giant one is complete) behind.
+/// change its behaviour: the default capacity (64 KiB), 1 MiB, the 8 MiB growth step of the
+/// standard policy, and 32 MiB. A few small valid records in front and (if the giant one is complete) behind.
 /// Returns (input, class, threshold).
 pub fn huge_input(rng: &Rng, fmt: Fmt) -> (Vec<u8>, String, usize) {
-    let t = *rng.pick(&[65536usize, 65536, 65536, 65536, 65536, 65536, 65536, 65536, 1 << 20, 1 << 20, 1 << 20, 1 << 23]);
+    // (32 MiB: rare, a scenario of that size costs about a second)
+    let t = if rng.chance(1, 25) { 1usize << 25 } else { *rng.pick(&[65536usize, 65536, 65536, 65536, 65536, 65536, 65536, 65536, 1 << 20, 1 << 20, 1 << 20, 1 << 23]) };
     let size = t / 10 * rng.range(11, 25);
     let crlf = rng.chance(1, 4);
     let nl: &[u8] = if crlf { b"\r\n" } else { b"\n" };
@@ -592,7 +593,8 @@ pub fn huge_input(rng: &Rng, fmt: Fmt) -> (Vec<u8>, String, usize) {
                     class = if k == 0 { "huge/one_line" } else { "huge/long_header" };
                 }
                 1 => {
-                    let w = rng.range(1, 200);
+                    // (millions of lines in one record are slow to observe: wider lines at the large sizes)
+                    let w = if t > 1 << 20 { rng.range(60, 4000) } else { rng.range(1, 200) };
                     for _ in 0..size / (w + nl.len()) {
                         fill(&mut v, w, b"ACGT");
                         v.extend_from_slice(nl);
@@ -635,6 +637,9 @@ pub fn huge_cfg(rng: &Rng, t: usize, input_len: usize) -> Cfg {
         2 => vec![65536],
         3 => vec![1 << 20],
         _ => vec![(if t <= 1 << 20 { rng.range(4096, 70_000) } else { rng.range(60_000, 3_000_000) }) as u32],
+    };
+    // a source that fills a huge buffer in one read hides limits on the size of a fill
+    let script = if t > 1 << 23 && script.is_empty() && rng.chance(2, 3) { vec![1 << 20] } else { script
     };
     Cfg {
         cap,
@@ -803,8 +808,11 @@ pub fn gen_refusing_policy(rng: &Rng, cap: usize) -> PolicySpec {
 
 /// how an injected io::Error is built (see scn::Fault::payload)
 pub fn gen_payload(rng: &Rng) -> String {
-    match rng.below(8) {
+    match rng.below(9) {
         0..=3 => String::new(),
+        // raw OS errors: ESPIPE, EIO, EAGAIN, EPIPE, ENOSPC, EACCES, ETIMEDOUT (not EINTR: that one
+        // is an interruption, which the readers retry)
+        8 => format!("os:{}", rng.pick(&[29, 29, 5, 11, 32, 28, 13, 110])),
         4 => "msg".into(),
         5 => format!("nested:{}", rng.pick(&["Interrupted", "BrokenPipe", "UnexpectedEof", "Other"])),
         6 => "nested:Interrupted".into(),
@@ -819,7 +827,17 @@ pub fn gen_cfg(rng: &Rng, input: &[u8], interrupts: bool) -> Cfg {
         policy: gen_permissive_policy(rng, input.len()),
         script: gen_script(rng, interrupts),
         cuts: gen_cuts(rng, input),
-        intr_burst: if interrupts && rng.chance(1, 40) { Some((rng.small(12), rng.range(7, 40))) } else { None },
+        // (now and then more interruptions in a row than a 16-bit or a 2^20 retry counter holds)
+        intr_burst: if interrupts && rng.chance(1, 40) {
+            let len = match rng.below(60) {
+                0 if rng.chance(1, 3) => rng.range(65_530, 70_000),
+                1 if rng.chance(1, 40) => rng.range(1_048_570, 1_100_000),
+                _ => rng.range(7, 40),
+            };
+            Some((rng.small(12), len))
+        } else {
+            None
+        },
         faults: vec![],
         lift: None, pause: None,
     }
